@@ -51,7 +51,27 @@ def _pure_take(a: ast.AST) -> bool:
     return isinstance(a, ast.Call) and isinstance(a.func, ast.Attribute) and a.func.attr in ("popleft", "pop", "get_nowait", "result") and not a.args and not a.keywords
 
 
+def _r8_event_framing(P: Project, R: Report) -> None:
+    """Same server output, same messages: the two event-stream carriers end an event at the blank line and forget its name
+    there, as the format says — otherwise a message that follows a data-less typed event (a keep-alive) is delivered on
+    stdio and on the other HTTP carrier and dropped on this one."""
+    from .c11 import blank_line_resets_event, field_form_event_reset
+
+    R.rule("R8", "inbound framing on the event-stream carriers: a blank line ends the event and clears the name an `event` field set, on every path (the obligations of C11-R2 / C12-R6 read here for 'the same sequence of messages on the read stream')")
+    n = 0
+    for mod in (A.MOD_SSE, A.MOD_HTTP):
+        try:
+            n += blank_line_resets_event(P, R, mod, "R8")
+        except AnalysisError as e:
+            R.notes.append(f"R8: {str(e)[:120]}")
+        n += field_form_event_reset(P, R, mod, "R8")
+    if n == 0:
+        R.notes.append("R8 not evaluated: no event-stream recogniser in a shape these rules read (C11 / C12 report the unreadable shape themselves)")
+        R.rules.pop("R8", None)
+
+
 def check(P: Project, R: Report) -> None:
+    _r8_event_framing(P, R)
     _check_main(P, R)
     _r4_order(P, R)
     _r5_no_invented_message(P, R)
